@@ -378,6 +378,9 @@ write_code(ostream &out_code,ostream * out_include, InterrogateModuleDef *def) {
     out_code << "#include \"dtoolbase.h\"\n"
              << "#include \"interrogate_request.h\"\n"
              << "#include \"dconfig.h\"\n";
+  } else if (save_unique_names) {
+    // The unique-name table below is an array of InterrogateUniqueNameDef.
+    out_code << "#include \"interrogate_request.h\"\n";
   }
 
   ostringstream declaration_bodies;
